@@ -318,6 +318,10 @@ MUTANTS = {
     "withdrawal_amount_not_compared": ("eth2/beacon/capella/transition.go",
                                        "!bytes.Equal(withdrawal.Address[:], expectedWithdrawal.Address[:]) ||\n\t\t\twithdrawal.Amount != expectedWithdrawal.Amount {",
                                        "!bytes.Equal(withdrawal.Address[:], expectedWithdrawal.Address[:]) {"),
+    # round-3 seeded change re-created on the repaired code: the underflow guard removed and the subtraction saturating
+    "deposit_count_saturating_subtraction": ("eth2/beacon/phase0/deposit.go",
+                                             "if eth1Data.DepositCount < depIndex {\n\t\treturn errors.New(\"eth1 data deposit count is lower than the state's deposit index\")\n\t}\n\texpectedInputCount := uint64(eth1Data.DepositCount - depIndex)",
+                                             "expectedInputCount := uint64(0)\n\tif eth1Data.DepositCount > depIndex {\n\t\texpectedInputCount = uint64(eth1Data.DepositCount - depIndex)\n\t}"),
     "attester_slashing_reason_not_checked": ("eth2/beacon/phase0/attester_slashing.go",
                                              "if !IsSlashableAttestationData(&sa1.Data, &sa2.Data) {",
                                              "if false && !IsSlashableAttestationData(&sa1.Data, &sa2.Data) {"),
